@@ -40,6 +40,15 @@ func zzC20_writer() {
 		}
 		opts = append(opts, message.Option{ID: message.ContentFormat, Value: []byte{0}})
 		opts = append(opts, message.Option{ID: message.NoResponse, Value: val})
+		// the request may carry options with higher numbers than No-Response (258) as well
+		switch symChoose("higher-option", 3) {
+		case 1:
+			opts = append(opts, message.Option{ID: 292, Value: []byte{1}}) // Request-Tag
+			symCover("followed-by-higher-option")
+		case 2:
+			opts = append(opts, message.Option{ID: 2049, Value: []byte{1}}, message.Option{ID: 65001, Value: nil})
+			symCover("followed-by-higher-option")
+		}
 	} else {
 		opts = append(opts, message.Option{ID: message.ContentFormat, Value: []byte{0}})
 	}
